@@ -69,7 +69,7 @@ def random_layout(rng, i):
             "comments": rng.random() < 0.5, "blanklines": rng.random() < 0.5, "tighteq": rng.random() < 0.2,
             "shuffle": rng.random() < 0.5, "multiline": rng.random() < 0.5, "closeown": rng.random() < 0.3,
             "padvalues": rng.random() < 0.5, "trailing": rng.random() < 0.3, "intstyle": rng.randrange(4),
-            "floatpad": rng.random() < 0.3, "preamble": rng.random() < 0.4}
+            "floatpad": rng.random() < 0.3, "preamble": rng.random() < 0.4, "numforms": rng.random() < 0.6}
 
 
 def relayout_text(text, rng):
